@@ -107,6 +107,17 @@ def gen_calls(ch: Any, svc: Service) -> list[Call]:
     return calls
 
 
+def _same_b64(a: bytes, b: bytes) -> bool:
+    """Do two base64 texts decode to the same bytes (non-canonical trailing bits)?"""
+    import base64
+    import binascii
+
+    try:
+        return base64.b64decode(a, validate=True) == base64.b64decode(b, validate=True)
+    except (binascii.Error, ValueError):
+        return False
+
+
 def _resp_class(rec: dict[str, Any], dec: bytes, hx: bool | None) -> str:
     """What the response says went wrong: the EXCEPTION batch's error class, else the JSON error title, else 'ok' / 'opaque'."""
     if hx:
@@ -271,12 +282,16 @@ def run(ctx: RunCtx) -> None:
                         opts = ["state-tampered", "state-missing", "state-foreign", "call-tampered", "call-missing"]
                         v = opts[ch.choose(len(opts), lab + ".token")]
                         if v == "state-tampered":
+                            same_bytes = [False]
+
                             def _t(d_: dict[bytes, bytes]) -> dict[bytes, bytes]:
                                 tok = bytearray(d_[M.STATE_KEY])
                                 tok[ch.choose(len(tok), lab + ".tpos")] ^= 0x01
+                                same_bytes[0] = _same_b64(d_[M.STATE_KEY], bytes(tok))
                                 return {**d_, M.STATE_KEY: bytes(tok)}
                             body = M.remeta(body, _t)
-                            must.add(400)
+                            # a flipped padding bit of the base64 text decodes to the same sealed bytes: the same token
+                            (maybe if same_bytes[0] else must).add(400)
                         elif v == "state-missing":
                             body = M.remeta(body, lambda d_: {k: x for k, x in d_.items() if k != M.STATE_KEY})
                             must.add(400)
@@ -284,14 +299,18 @@ def run(ctx: RunCtx) -> None:
                             headers["X-Sim-Identity"] = "dom|mallory"
                             must.add(400)
                         elif v == "call-tampered":
+                            same_bytes = [False]
+
                             def _c(d_: dict[bytes, bytes]) -> dict[bytes, bytes]:
                                 if M.CALL_STATE_KEY not in d_:
+                                    same_bytes[0] = True
                                     return d_
                                 tok = bytearray(d_[M.CALL_STATE_KEY])
                                 tok[ch.choose(len(tok), lab + ".cpos")] ^= 0x01
+                                same_bytes[0] = _same_b64(d_[M.CALL_STATE_KEY], bytes(tok))
                                 return {**d_, M.CALL_STATE_KEY: bytes(tok)}
                             body = M.remeta(body, _c)
-                            (must if cache0 else maybe).add(400)
+                            (must if cache0 and not same_bytes[0] else maybe).add(400)
                         else:
                             body = M.remeta(body, lambda d_: {k: x for k, x in d_.items() if k != M.CALL_STATE_KEY})
                             (must if cache0 else maybe).add(400)
